@@ -45,6 +45,102 @@ fn vx_extend_hash_len(v: &mut Vec<(MerkleHash, usize)>, chunks: &[Chunk])
 // R7 outline: `hash_is_global_dedup_eligible` (mdb_shard) only gates an optional background query; arbitrary
 #[verifier::external_body] fn hash_is_global_dedup_eligible(h: &MerkleHash) -> bool { unimplemented!() }
 
+
+// ---- file record types and the callees of finalize ---------------------------------------------------------------------------------
+//@ extract mdb_shard/src/file_structs.rs struct FileDataSequenceHeader
+//@ end
+//@ extract mdb_shard/src/file_structs.rs struct FileVerificationEntry
+//@ end
+//@ extract mdb_shard/src/file_structs.rs struct FileMetadataExt
+//@ end
+//@ extract mdb_shard/src/file_structs.rs struct MDBFileInfo
+//@ end
+//@ extract deduplication/src/data_aggregator.rs struct DataAggregator
+//@ end
+impl FileDataSequenceHeader {
+    // R11/R12 stub of FileDataSequenceHeader::new at the usize instantiation (its flag arithmetic is verified in U-SETOPS);
+    // the `num_entries.try_into().unwrap()` panic is the precondition
+    #[verifier::external_body]
+    fn new(file_hash: MerkleHash, num_entries: usize, contains_verification: bool, contains_metadata_ext: bool) -> (r: Self)
+        requires num_entries <= u32::MAX
+        ensures r.file_hash == file_hash, r.num_entries == num_entries
+    { unimplemented!() }
+}
+impl FileVerificationEntry {
+    // R11 stub (`_unused: Default::default()` on [u64; 2]); only the range hash matters
+    #[verifier::external_body]
+    fn new(range_hash: MerkleHash) -> (r: Self) ensures r.range_hash == range_hash { unimplemented!() }
+}
+impl DataAggregator {
+    // callee contract; proved for the real `DataAggregator::new` in U-AGG
+    #[verifier::external_body]
+    fn new(chunks: Vec<Chunk>, pending_file_info: MDBFileInfo, internally_referencing_entries: Vec<usize>) -> (r: Self)
+        requires chunks_ok(chunks@), sum_len(hashes(chunks@)) <= usize::MAX,
+        ensures r.chunks == chunks, r.num_bytes == sum_len(hashes(chunks@)),
+            r.pending_file_info@ == seq![(pending_file_info, internally_referencing_entries)],
+    { unimplemented!() }
+}
+#[derive(Debug)]
+pub struct MerkleDBError { pub x: u8 }
+// the published file-hash construction (merkle root of the chunk list, then keyed with the salt) is proved against a recursive spec
+// in U-MERKLE; here it is an uninterpreted function of the (hash, length) list and the salt.  Assumed: never Err (the code unwraps).
+pub uninterp spec fn file_hash_spec(hl: Seq<(MerkleHash, usize)>, salt: [u8; 32]) -> MerkleHash;
+#[verifier::external_body]
+fn file_node_hash(chunks: &[(MerkleHash, usize)], salt: &[u8; 32]) -> (r: Result<MerkleHash, MerkleDBError>)
+    ensures r.is_ok(), r.unwrap() == file_hash_spec(chunks@, *salt)
+{ unimplemented!() }
+pub uninterp spec fn range_hash_spec(hs: Seq<MerkleHash>) -> MerkleHash;
+#[verifier::external_body]
+fn range_hash_from_chunks(chunks: &[MerkleHash]) -> (r: MerkleHash) ensures r == range_hash_spec(chunks@) { unimplemented!() }
+// R7 outline of `.iter().map(|(hash, _)| *hash).collect()` over a slice of (hash, len) pairs: assumed to be the projection it spells
+#[verifier::external_body]
+fn vx_firsts(s: &[(MerkleHash, usize)]) -> (r: Vec<MerkleHash>) ensures r@ == ch_hashes(s@)
+{ s.iter().map(|(hash, _)| *hash).collect() }
+
+spec fn seg_n(e: FileDataSequenceEntry) -> int { e.chunk_index_end - e.chunk_index_start }
+// chunk offset of segment i in the file's chunk list: the running `chunk_idx` of finalize's closure
+spec fn off(fi: Seq<FileDataSequenceEntry>, k: int) -> int decreases k {
+    if k <= 0 { 0 } else { off(fi, k - 1) + seg_n(fi[k - 1]) }
+}
+proof fn lemma_off_prefix(fi: Seq<FileDataSequenceEntry>, k: int)
+    requires 0 <= k < fi.len(),
+    ensures off(fi.drop_last(), k) == off(fi, k),
+    decreases k
+{ if k > 0 { lemma_off_prefix(fi, k - 1); } }
+proof fn lemma_flatten_len(fi: Seq<FileDataSequenceEntry>, nd: Seq<MerkleHash>)
+    requires forall|i: int| 0 <= i < fi.len() ==> seg_ok(#[trigger] fi[i], nd),
+    ensures flatten(fi, nd).len() == off(fi, fi.len() as int), fi.len() <= flatten(fi, nd).len(),
+    decreases fi.len()
+{
+    if fi.len() > 0 {
+        assert forall|i: int| 0 <= i < fi.drop_last().len() implies seg_ok(#[trigger] fi.drop_last()[i], nd) by { assert(fi.drop_last()[i] == fi[i]); }
+        lemma_flatten_len(fi.drop_last(), nd);
+        lemma_off_prefix(fi, fi.len() - 1);
+        assert(seg_ok(fi.last(), nd));
+        assert(seg_den(fi.last(), nd).len() == seg_n(fi.last()));
+    }
+}
+// C02: segment i denotes exactly the chunk hashes [off(i), off(i+1)) of the file's chunk list
+proof fn lemma_flatten_segment(fi: Seq<FileDataSequenceEntry>, nd: Seq<MerkleHash>, i: int)
+    requires forall|j: int| 0 <= j < fi.len() ==> seg_ok(#[trigger] fi[j], nd), 0 <= i < fi.len(),
+    ensures 0 <= off(fi, i) <= off(fi, i + 1) <= flatten(fi, nd).len(),
+        flatten(fi, nd).subrange(off(fi, i), off(fi, i + 1)) == seg_den(fi[i], nd),
+    decreases fi.len()
+{
+    let dl = fi.drop_last();
+    assert forall|j: int| 0 <= j < dl.len() implies seg_ok(#[trigger] dl[j], nd) by { assert(dl[j] == fi[j]); }
+    lemma_flatten_len(dl, nd); lemma_flatten_len(fi, nd);
+    if i == fi.len() - 1 {
+        if i > 0 { lemma_off_prefix(fi, i); }
+        assert(flatten(fi, nd).subrange(off(fi, i), off(fi, i + 1)) =~= seg_den(fi[i], nd));
+    } else {
+        lemma_flatten_segment(dl, nd, i);
+        lemma_off_prefix(fi, i); lemma_off_prefix(fi, i + 1);
+        assert(dl[i] == fi[i]);
+        assert(flatten(fi, nd).subrange(off(fi, i), off(fi, i + 1)) =~= flatten(dl, nd).subrange(off(fi, i), off(fi, i + 1)));
+    }
+}
+
 //@ extract deduplication/src/file_deduplication.rs struct FileDeduper
 //@ end
 
@@ -386,6 +482,75 @@ impl<DataInterfaceType: DeduplicationDataInterface> FileDeduper<DataInterfaceTyp
             assert forall|i: int| 0 <= i < self.chunk_hashes@.len() implies (#[trigger] self.chunk_hashes@[i]).1 == len_of(self.chunk_hashes@[i].0) by {
                 if i >= old(self).chunk_hashes@.len() { assert(chunk_ok(chunks@[i - old(self).chunk_hashes@.len()])); }
             }
+        }
+//@ end
+
+    // R7 outline of `self.file_info.iter().map(|entry| { .. }).collect()`: assumed to apply the closure - whose body is verified as
+    // `vx_verification_step` below - to every segment in order, threading `chunk_idx`
+    #[verifier::external_body]
+    fn vx_verification_all(&self, chunk_idx: &mut usize) -> (r: Vec<FileVerificationEntry>)
+        requires *old(chunk_idx) == 0,
+            forall|i: int| 0 <= i < self.file_info@.len() ==> (#[trigger] self.file_info@[i]).chunk_index_start <= self.file_info@[i].chunk_index_end
+                && off(self.file_info@, i + 1) <= self.chunk_hashes@.len(),
+        ensures r@.len() == self.file_info@.len(),
+            forall|i: int| 0 <= i < r@.len() ==> (#[trigger] r@[i]).range_hash
+                == range_hash_spec(ch_hashes(self.chunk_hashes@).subrange(off(self.file_info@, i), off(self.file_info@, i + 1))),
+    { unimplemented!() }
+
+//@ extract deduplication/src/file_deduplication.rs in `impl<DataInterfaceType: DeduplicationDataInterface> FileDeduper<DataInterfaceType>` region finalize
+//@ block `.map(|entry| {`
+//@ sig `fn vx_verification_step(&self, entry: &FileDataSequenceEntry, chunk_idx: usize) -> (r: (FileVerificationEntry, usize))`
+//@ epilogue `($tail, chunk_idx)`
+//@ subst `self.chunk_hashes[chunk_idx..chunk_idx + n_chunks] .iter() .map(|(hash, _)| *hash) .collect()` => `vx_firsts(&self.chunk_hashes[chunk_idx..chunk_idx + n_chunks])` :: R7 outline of an iterator chain (projection to the hashes); the slice bounds stay verified
+//@ subst `mdb_shard::chunk_verification::range_hash_from_chunks` => `range_hash_from_chunks` :: R11 stub path
+//@ subst `let chunk_hashes: Vec<_> =` => `let chunk_hashes: Vec<MerkleHash> =` :: type annotation only
+//@ body-start
+        let mut chunk_idx = chunk_idx; let ghost c0 = chunk_idx as int;
+//@ contract
+        requires entry.chunk_index_start <= entry.chunk_index_end,
+            chunk_idx + (entry.chunk_index_end - entry.chunk_index_start) <= self.chunk_hashes@.len(),
+        ensures
+            /*@C02*/ r.0.range_hash == range_hash_spec(ch_hashes(self.chunk_hashes@).subrange(chunk_idx as int, chunk_idx + seg_n(*entry))),
+            r.1 == chunk_idx + seg_n(*entry),
+//@ before `let chunk_hashes: Vec<MerkleHash> =`
+        proof { assert(self.chunk_hashes@.len() == self.chunk_hashes.len()); }
+//@ before `let range_hash =`
+        proof { assert(ch_hashes(self.chunk_hashes@.subrange(c0, c0 + n_chunks)) =~= ch_hashes(self.chunk_hashes@).subrange(c0, c0 + n_chunks)); }
+//@ end
+
+//@ extract deduplication/src/file_deduplication.rs in `impl<DataInterfaceType: DeduplicationDataInterface> FileDeduper<DataInterfaceType>` fn finalize
+//@ ret r
+//@ replace-span `let verification = self` `}) .collect();` `let verification: Vec<FileVerificationEntry> = self.vx_verification_all(&mut chunk_idx);` :: R7 outline; the closure body is verified as vx_verification_step
+//@ contract
+        requires self.wf(),
+            // a file record holds its segment count in a u32 (FileDataSequenceHeader::new panics otherwise)
+            self.file_info@.len() <= u32::MAX,
+        ensures
+            /*@C03,C02*/ r.0 == file_hash_spec(self.chunk_hashes@, file_hash_salt),
+            /*@C01,C15*/ r.1.chunks == self.new_data && r.1.num_bytes == self.new_data_size && r.1.pending_file_info@.len() == 1,
+            /*@C01,C02*/ r.1.pending_file_info@[0].0.segments == self.file_info && r.1.pending_file_info@[0].1 == self.internally_referencing_entries,
+            /*@C02*/ r.1.pending_file_info@[0].0.metadata.file_hash == r.0 && r.1.pending_file_info@[0].0.metadata.num_entries == self.file_info@.len(),
+            /*@C02*/ r.1.pending_file_info@[0].0.metadata_ext == metadata_ext,
+            /*@C02*/ r.1.pending_file_info@[0].0.verification@.len() == self.file_info@.len(),
+            /*@C02*/ forall|i: int| 0 <= i < self.file_info@.len() ==> (#[trigger] r.1.pending_file_info@[0].0.verification@[i]).range_hash
+                        == range_hash_spec(seg_den(self.file_info@[i], hashes(self.new_data@))),
+            /*@C14*/ r.2 == self.deduplication_metrics,
+            r.3 == self.new_xorbs,
+//@ body-start
+        let ghost fi0 = self.file_info@; let ghost nd = hashes(self.new_data@); let ghost ch = ch_hashes(self.chunk_hashes@);
+        proof {
+            lemma_flatten_len(fi0, nd);
+            assert forall|i: int| 0 <= i < fi0.len() implies (#[trigger] fi0[i]).chunk_index_start <= fi0[i].chunk_index_end && off(fi0, i + 1) <= self.chunk_hashes@.len() by {
+                lemma_flatten_segment(fi0, nd, i);
+            }
+            assert(self.chunk_hashes@.subrange(0, self.chunk_hashes@.len() as int) =~= self.chunk_hashes@);
+        }
+//@ before `let fi = MDBFileInfo {`
+        proof {
+            assert forall|i: int| 0 <= i < fi0.len() implies (#[trigger] verification@[i]).range_hash == range_hash_spec(seg_den(fi0[i], nd)) by {
+                lemma_flatten_segment(fi0, nd, i);
+            }
+            lemma_sum_len_subrange(nd, 0, nd.len() as int);
         }
 //@ end
 }
